@@ -19,7 +19,35 @@ from renormalizer.tn.tree import TTNO, TTNS
 from renormalizer.tn.treebase import BasisTree
 
 sys.path.insert(0, __file__.rsplit("/", 1)[0])
-from c08_run import dense_from_terms, model_spin, model_holstein, total_qn, extra_terms  # noqa: E402
+from c08_run import dense_from_terms, model_spin, model_holstein, model_qc, total_qn, extra_terms  # noqa: E402
+
+
+def model_two_species(n, rng):
+    """two conserved particle species on alternating sites (hard-core bosons): labels (n_A, n_B); hops within a species, density
+    interactions between them: a generic two-component quantum number"""
+    basis = [BasisHalfSpin(i, sigmaqn=np.array([[0, 0], [1, 0]]) if i % 2 == 0 else np.array([[0, 0], [0, 1]])) for i in range(n)]
+    terms = [Op("sigma_z", i, float(rng.uniform(-0.8, 0.8))) for i in range(n)]
+    for i in range(n - 2):
+        t = float(rng.uniform(0.4, 1.2))
+        terms += [Op("sigma_+ sigma_-", [i, i + 2], t), Op("sigma_- sigma_+", [i, i + 2], t)]
+    for i in range(n - 1):
+        terms.append(Op("sigma_z sigma_z", [i, i + 1], float(rng.uniform(-0.9, 0.9))))
+    return Model(basis, terms)
+
+
+def model_sho_spin(ns, nbas, rng):
+    """the input of fix a4feae3: an oscillator (no label) at the root and spins with two-component labels below it"""
+    basis = [BasisSHO("v", omega=float(rng.uniform(0.5, 1.5)), nbas=nbas, ) ]
+    basis[0].sigmaqn = np.zeros((nbas, 2), dtype=int)
+    terms = [Op(r"b^\dagger b", "v", float(basis[0].omega))]
+    for i in range(ns):
+        basis.append(BasisHalfSpin(i, sigmaqn=np.array([[0, 0], [1, 0]]) if i % 2 == 0 else np.array([[0, 0], [0, 1]])))
+        terms.append(Op("sigma_z", i, float(rng.uniform(-0.8, 0.8))))
+        terms.append(Op("sigma_z", i) * Op(r"b^\dagger+b", "v") * float(rng.uniform(0.2, 0.8)))
+    for i in range(ns - 2):
+        t = float(rng.uniform(0.4, 1.2))
+        terms += [Op("sigma_+ sigma_-", [i, i + 2], t), Op("sigma_- sigma_+", [i, i + 2], t)]
+    return Model(basis, terms)
 
 
 def make_tree(basis_list, topo, rng):
@@ -198,7 +226,13 @@ def run_case(case):
     np.random.seed(case["seed"] % (2 ** 32))
     t0 = time.time()
     try:
-        if case["kind"] == "spin":
+        if case["kind"] == "qc":
+            model = model_qc(case["norb"], rng)
+        elif case["kind"] == "two_species":
+            model = model_two_species(case["n"], rng)
+        elif case["kind"] == "sho_spin":
+            model = model_sho_spin(case["ns"], case["nbas"], rng)
+        elif case["kind"] == "spin":
             model = model_spin(case["n"], case.get("qn", True), rng, case.get("enc", "01"), False, bool(case.get("lr")))
         else:
             model = model_holstein(case["nmol"], case["nbas"], rng, case.get("qn", True))
@@ -250,8 +284,13 @@ def run_case(case):
         out["ok"] = True
         out["macro"] = [float(x) for x in es]
     except Exception:
+        tb = traceback.format_exc()
+        if case.get("algo") == "arpack" and "Cannot use scipy.linalg.eigh for LinearOperator" in tb:
+            # ARPACK needs k < N: a local problem of dimension 1 (tiny symmetry sector) is outside what this branch can do
+            out["skip"] = "arpack not applicable: a local problem has dimension 1 (k >= N)"
+            return out
         out["ok"] = False
-        out["crash"] = traceback.format_exc()[-1500:]
+        out["crash"] = tb[-1500:]
     TR["on"] = False
     out["trace"] = list(EVENTS)
     out["solves"] = list(SOLVES)
